@@ -6,7 +6,7 @@ from fractions import Fraction as Fr
 from ..nf import Rat, C
 from ..source import Unsupported, AnchorError
 from ..xlate import Interp, Obj, ListV, DictV, Raised, FuncRef, Frame, _RaisedExc
-from .common import same, show, opaque_obj
+from .common import same, show, opaque_obj, pub
 
 EQ = 'pmutt.equilibrium.Equilibrium'        # the public path; the defining module is found through the re-export
 
@@ -76,8 +76,10 @@ def _dict_reader(name):
 
 
 def solver(cap, state, ns):
-    """scipy.optimize.minimize as an uninterpreted solver: records what it is given (cap) and returns a fresh result
-    with the outcome the rule set in state['outcome'] = (success, status, iterations)"""
+    """scipy.optimize.minimize as an uninterpreted solver: records what it is given and returns a fresh result with
+    the outcome the rule set: state['seq'][j] = (success, status, iterations) for the j-th run asked for during the
+    current call of the method under analysis (begin() starts a call), state['outcome'] for every run beyond that
+    list. cap holds the record of the last run and, under 'recs', the records of all runs of the current call."""
     def mini(I_, fr, args, kwargs, nd):
         rec = {'fun': args[0] if args else kwargs.get('fun'),
                'x0': args[1] if len(args) > 1 else kwargs.get('x0')}
@@ -88,7 +90,10 @@ def solver(cap, state, ns):
         maxiter = opts.d.get('maxiter') if isinstance(opts, DictV) else None
         if not (isinstance(maxiter, Rat) and maxiter.is_const()):
             maxiter = C(100)                        # the default of SLSQP
-        success, status, nit = state['outcome']
+        recs = cap.get('recs', [])
+        seq = state.get('seq') or ()
+        outcome = seq[len(recs)] if len(recs) < len(seq) else state['outcome']
+        success, status, nit = outcome
         k = state['n']
         state['n'] += 1
         sfx = '' if k == 0 else '_call%d' % (k + 1)
@@ -104,10 +109,26 @@ def solver(cap, state, ns):
                                       'jac': vec('gsol'), 'nit': maxiter if nit is None else C(nit),
                                       'nfev': I_.D.sym('nfev' + sfx), 'njev': I_.D.sym('njev' + sfx)})
         rec['sol'] = sol
+        # the amounts of this run as the solver handed them out: what the caller does to the array afterwards (in
+        # place, or by assigning to sol.x) is not part of the reference
+        rec['x'] = list(sol.d['x'].items)
+        rec['outcome'] = outcome
         cap.clear()
         cap.update(rec)
+        cap['recs'] = recs + [rec]
         return sol
     return mini
+
+
+def returned_run(cap, res):
+    """index of the run of this call whose amounts are the ones handed out (None: of no run)"""
+    mo = pub(res, 'moles') if isinstance(res, Obj) else None
+    if not isinstance(mo, ListV):
+        return None
+    for j, rec in enumerate(cap.get('recs', [])):
+        if len(mo) == len(rec['x']) and all(same(a, b) for a, b in zip(mo.items, rec['x'])):
+            return j
+    return None
 
 
 def bounds_object(I_, fr, args, kwargs, nd):
@@ -139,10 +160,11 @@ def lower_bounds(bnds, ns):
     return None
 
 
-def build(I, repo, net, form, feed='feed_', sp=None, model=None):
+def build(I, repo, net, form, feed='feed_', sp=None, model=None, tag=''):
     """the problem built through the public constructor: concrete compositions, symbolic feed amounts; the model may
-    hold the species in another order than the network and species the network does not name. A second problem over
-    the same species (sp, model given) has feed amounts of its own."""
+    hold the species in another order than the network and species the network does not name. A second problem
+    (feed given) has feed amounts of its own, over the same species objects (sp, model given) or over species objects
+    of its own that carry the same names (tag: the Gibbs energies of the two models are different atoms)."""
     D = I.D
     ci = repo.cls(EQ)
     names = [nm for nm, _ in net]
@@ -150,37 +172,60 @@ def build(I, repo, net, form, feed='feed_', sp=None, model=None):
     if sp is None:
         sp = {}
         for nm, comp in list(net) + [('Xe2', {'Xe': 2})]:
-            o = opaque_obj(I, nm, {'get_GoRT': ('T',)})
+            o = opaque_obj(I, nm + tag, {'get_GoRT': ('T',)})
             o.attrs['elements'] = DictV({e: C(k) for e, k in comp.items()})
             o.attrs['name'] = nm
             sp[nm] = o
     if model is None:
-        if form == MODEL_FORMS[0]:
-            order = names
-        else:
-            order = [names[-1], 'Xe2'] + names[:-1]
-        model = DictV()
-        for nm in order:
-            model.d[nm] = sp[nm]
-        if form == MODEL_FORMS[2]:
-            model = ListV(list(model.d.values()))
+        model = model_of(sp, names, form)
     network = DictV()
     for nm in names:
         network.d[nm] = D.sym(feed + nm)
-    eq = Obj('eq' if feed == 'feed_' else 'eq_' + feed, ci, closed=True)
-    r = I.call_method(eq, '__init__', [], {'model': model, 'network': network})
-    return eq, r, names, sp, comps, model
+    eq = I.construct(ci, [], {'model': model, 'network': network}, name='eq' if feed == 'feed_' else 'eq_' + feed)
+    return eq, (eq if isinstance(eq, Raised) else None), names, sp, comps, model
+
+
+def model_of(sp, names, form):
+    if form == MODEL_FORMS[0]:
+        order = names
+    else:
+        order = [names[-1], 'Xe2'] + names[:-1]
+    model = DictV()
+    for nm in order:
+        model.d[nm] = sp[nm]
+    if form == MODEL_FORMS[2]:
+        model = ListV(list(model.d.values()))
+    return model
+
+
+def call_dunder(v):
+    """(owner, def) of __call__ when v is an instance of a package class that defines it (found through the MRO)"""
+    I = getattr(v, 'interp', None)
+    if isinstance(v, Obj) and v.ci is not None and I is not None:
+        return I.repo.find_method(v.ci, '__call__', missing_ok=True)
+    return None
 
 
 def is_callable(v):
-    return isinstance(v, FuncRef) or hasattr(v, 'pmv_call')
+    """what scipy can call: a function, a bound method, a lambda, a library-made callable (functools.partial), or an
+    instance of a class with __call__"""
+    return isinstance(v, FuncRef) or hasattr(v, 'pmv_call') or call_dunder(v) is not None or \
+        (isinstance(v, Obj) and '__call__' in dict.keys(v.opaque_methods))
 
 
 def call(fr_, f, args):
     try:
+        if call_dunder(f) is not None:
+            r = fr_.I.call_method(f, '__call__', list(args), {})
+            return r
         return fr_.apply(f, list(args), {}, None)
     except _RaisedExc as e:
         return e.raised
+
+
+def extra_args(v):
+    """scipy: ``args`` defaults to (), anything that is not a tuple is one extra argument"""
+    return [] if v is None else list(v.items) if isinstance(v, ListV) and getattr(v, 'is_tuple', False) else [v]
 
 
 def where(f, owner, fn):
@@ -188,6 +233,9 @@ def where(f, owner, fn):
     a lambda or a library-made callable"""
     if isinstance(f, FuncRef) and isinstance(f.fn, ast.FunctionDef):
         return f.module, f.fn, f.fn.name
+    got = call_dunder(f)
+    if got is not None:
+        return got[0].module, got[1], '%s.%s' % (got[0].name, got[1].name)
     return owner.module, fn, fn.name
 
 
@@ -204,34 +252,35 @@ def verify(run, I, eq, cap, res, ctx, feed, T, P, label, tag, full=True):
         run.fail('REF.result', 'Equilibrium.get_net_comp', 'result' + tag, '[%s] unexpected result %s'
                  % (key, show(res)), owner.module, fn)
         return None
-    sol = cap.get('sol')
-    if sol is None:
+    if cap.get('sol') is None:
         run.fail('EFFECT.shared-state' if tag else 'DATAFLOW.solver-args', 'Equilibrium.get_net_comp', key,
                  '[%s] a composition is returned although the solver was not asked: %s' % (
                      key, 'what is handed out was remembered from an earlier call or from another object, it is not '
                      'the solution of this problem' if tag else 'nothing is minimised'), owner.module, fn)
         return None
-    x = sol.d['x']
-    tot = x.items[0]
-    for xi in x.items[1:]:
+    # the run whose amounts are handed out (a call may ask the solver more than once: restart, polish); the last one
+    # when the amounts are those of no run of this call
+    j = returned_run(cap, res)
+    cap = cap['recs'][j if j is not None else -1]
+    x = cap['x']
+    tot = x[0]
+    for xi in x[1:]:
         tot = tot + xi
-    mf = res.attrs.get('mole_frac')
-    ok = isinstance(mf, ListV) and len(mf) == ns and all(same(a, b / tot) for a, b in zip(mf.items, x.items))
+    mf = pub(res, 'mole_frac')
+    ok = isinstance(mf, ListV) and len(mf) == ns and all(same(a, b / tot) for a, b in zip(mf.items, x))
     run.check(ok, 'REF.mole-fractions', 'Equilibrium.get_net_comp', key,
               'mole fractions are %s, expected x/sum(x) of the solver amounts' % show(mf, 160), owner.module, fn)
-    mo = res.attrs.get('moles')
-    okm = isinstance(mo, ListV) and len(mo) == ns and all(same(a, b) for a, b in zip(mo.items, x.items))
-    run.check(okm and same(res.attrs.get('species'), ListV(list(names))),
+    mo = pub(res, 'moles')
+    run.check(j is not None and same(pub(res, 'species'), ListV(list(names))),
               'REF.result', 'Equilibrium.get_net_comp', key + ' amounts',
-              'returned amounts/species are not the solver\'s x (of this call) in the species order: %s'
-              % show(mo, 120), owner.module, fn)
+              'returned amounts/species are not the solver\'s x (of a run of this call, as the solver handed it out) '
+              'in the species order: %s' % show(mo, 120), owner.module, fn)
     # objective and its Jacobian
     xs = ListV([D.sym('x%d' % i) for i in range(ns)])
     xs.is_array = True
     xs.dtype = 'float'              # the solver hands float64 vectors to the callbacks
     fun, jac, args = cap.get('fun'), cap.get('jac'), cap.get('args')
-    # scipy: args defaults to (), anything that is not a tuple is one extra argument
-    extra = [] if args is None else list(args.items) if isinstance(args, ListV) else [args]
+    extra = extra_args(args)
     if not (is_callable(fun) and (jac is True or is_callable(jac))):
         run.fail('DATAFLOW.solver-args', 'Equilibrium.get_net_comp', key, 'the objective and its analytic Jacobian '
                  'are not handed to the solver (fun and jac callables, or jac=True and fun returning both)',
@@ -283,45 +332,70 @@ def verify(run, I, eq, cap, res, ctx, feed, T, P, label, tag, full=True):
         run.check(p_ok, 'DATAFLOW.solver-args', 'Equilibrium.get_net_comp', key + ' pressure',
                   'the pressure in the objective handed to the solver is not proportional to P: ln(p/P) = %s'
                   % show(lnk, 120), owner.module, fn)
-    # constraints
+    # constraints: the element balances, in one dictionary or spread over several; anything else handed over as a
+    # constraint changes the set the minimum is taken over and is not judged here
     con = cap.get('constraints')
-    cons = con.items if isinstance(con, ListV) else [con]
-    okc = False
+    cons = list(con.items) if isinstance(con, ListV) else ([] if con is None else [con])
+    els = []
+    for nm in names:
+        els.extend(e for e in comps[nm] if e not in els)
+    # one balance per element of the network, in whatever order the elements are kept
+    wantc = [sum((xs.items[i] * comps[nm].get(e, 0) - D.sym(feed + nm) * comps[nm].get(e, 0)
+                  for i, nm in enumerate(names)), C(0)) for e in els]
+    left = list(wantc)
+    okc = bool(cons)
     for cd in cons:
-        if isinstance(cd, DictV) and cd.d.get('type') == 'eq' and is_callable(cd.d.get('fun')):
-            cv = call(fr_, cd.d['fun'], [xs])
-            els = []
-            for nm in names:
-                els.extend(e for e in comps[nm] if e not in els)
-            ne = len(els)
-            # one balance per element of the network, in whatever order the elements are kept
-            wantc = [sum((xs.items[i] * comps[nm].get(e, 0) - D.sym(feed + nm) * comps[nm].get(e, 0)
-                          for i, nm in enumerate(names)), C(0)) for e in els]
-            okc = isinstance(cv, ListV) and len(cv) == ne and all(isinstance(a, Rat) for a in cv.items)
-            left = list(wantc)
-            for a in (cv.items if okc else ()):
-                hit = [w for w in left if a.eq(w)]
-                if hit:
-                    left.remove(hit[0])
-            okc = okc and not left
-            m3, n3, nm3 = where(cd.d['fun'], owner, fn)
-            run.check(okc, 'REF.constraint', 'Equilibrium.' + nm3, key,
-                      'the equality constraint is %s, expected for every element of the network (atoms in x) - (atoms in '
-                      'the feed of this object)' % show(cv, 160), m3, n3)
-            if not full:
-                continue
-            cj = cd.d.get('jac')
-            jv = call(fr_, cj, [xs]) if is_callable(cj) else None
-            okjj = isinstance(cv, ListV) and isinstance(jv, ListV) and len(jv) == len(cv) and all(
+        if not (isinstance(cd, DictV) and 'type' in cd.d and 'fun' in cd.d):
+            raise Unsupported('a constraint handed to the solver is not a dictionary with type and fun: %s'
+                              % show(cd, 80))
+        if cd.d['type'] != 'eq':
+            raise Unsupported('a constraint of type %s is handed to the solver besides the element balances: whether '
+                              'it cuts off the minimum is not decided' % show(cd.d['type'], 40))
+        if not is_callable(cd.d['fun']):
+            okc = False
+            continue
+        # scipy calls fun(x, *args) and jac(x, *args) with the 'args' entry of the constraint dictionary
+        ca = cd.d.get('args')
+        if ca is not None and not isinstance(ca, ListV):
+            raise Unsupported("the 'args' entry of a constraint dictionary is not a sequence: %s" % show(ca, 80))
+        extra_c = list(ca.items) if ca is not None else []
+        cv = call(fr_, cd.d['fun'], [xs] + extra_c)
+        vals = list(cv.items) if isinstance(cv, ListV) else [cv]
+        okv = bool(vals) and all(isinstance(a, Rat) for a in vals)
+        for a in (vals if okv else ()):
+            hit = [w for w in left if a.eq(w)]
+            if hit:
+                left.remove(hit[0])
+            else:
+                okv = False             # not the balance of an element (that no other entry covers)
+        okv = okv and (len(cons) > 1 or not left)
+        okc = okc and okv
+        m3, n3, nm3 = where(cd.d['fun'], owner, fn)
+        run.check(okv, 'REF.constraint', 'Equilibrium.' + nm3, key,
+                  'the equality constraint is %s, expected for every element of the network (atoms in x) - (atoms in '
+                  'the feed of this object)' % show(cv, 160), m3, n3)
+        if not full:
+            continue
+        cj = cd.d.get('jac')
+        jv = call(fr_, cj, [xs] + extra_c) if is_callable(cj) else None
+        if isinstance(cv, ListV):
+            okjj = isinstance(jv, ListV) and len(jv) == len(cv) and all(
                 isinstance(jv.items[j], ListV) and len(jv.items[j]) == ns and
                 all(same(jv.items[j].items[i], D.d(cv.items[j], 'x%d' % i)) for i in range(ns))
                 for j in range(len(cv)))
-            m4, n4, nm4 = where(cj, owner, fn)
-            run.check(okjj, 'DERIV.constraint-jac', 'Equilibrium.' + nm4, key,
-                      'the constraint Jacobian is not the derivative of the constraint (M transposed): %s'
-                      % show(jv, 160), m4, n4)
+        else:
+            # a scalar constraint: its gradient, as a vector or as a matrix of one row
+            row = jv.items[0] if isinstance(jv, ListV) and len(jv) == 1 and isinstance(jv.items[0], ListV) else jv
+            okjj = isinstance(cv, Rat) and isinstance(row, ListV) and len(row) == ns and all(
+                same(row.items[i], D.d(cv, 'x%d' % i)) for i in range(ns))
+        m4, n4, nm4 = where(cj, owner, fn)
+        run.check(okjj, 'DERIV.constraint-jac', 'Equilibrium.' + nm4, key,
+                  'the constraint Jacobian is not the derivative of the constraint (M transposed): %s'
+                  % show(jv, 160), m4, n4)
+    okc = okc and not left
     run.check(okc, 'DATAFLOW.solver-args', 'Equilibrium.get_net_comp', key + ' constraint',
-              'no element-conservation equality constraint is handed to the solver', owner.module, fn)
+              'the equality constraints handed to the solver are not the element balances of the network, one per '
+              'element', owner.module, fn)
     if not full:
         return lnk if p_ok else None
     # bounds
@@ -338,27 +412,36 @@ def verify(run, I, eq, cap, res, ctx, feed, T, P, label, tag, full=True):
     return lnk if p_ok else None
 
 
+def begin(cap):
+    """a call of the method under analysis starts: no run of the solver has been asked for yet"""
+    cap.clear()
+
+
 def success_instance(run, repo, net, form, label, owner, fn, mode, full, extras):
-    """one object asked four times (success, success at other conditions, failure, success again) and a second object
-    over the same species with a feed of its own asked at the conditions of the first call, in one interpreter: state
-    that outlives a call or an object (flags, caches, class attributes, module globals) is seen"""
+    """one object asked several times (success, success at other conditions, the first temperature at another
+    pressure and the first pressure at another temperature, failure, success again) and a second object with species
+    objects of its own under the same names and a feed of its own asked at the conditions of the first call, in one
+    interpreter: state that outlives a call or an object (flags, caches, class attributes, module globals) is seen.
+    Returns the largest number of solver runs one call asked for."""
     I = Interp(repo)
     D = I.D
     eq, r0, names, sp, comps, model = build(I, repo, net, form)
     if isinstance(r0, Raised):
         run.fail('REF.constructor', 'Equilibrium.__init__', label, '[%s] building the problem raises %s'
                  % (label, r0.exc), owner.module, fn)
-        return
+        return 0
     ctx = (names, sp, comps, owner, fn)
     cap, state = {}, {'outcome': OK_, 'n': 0}
     I.native['scipy.optimize.minimize'] = solver(cap, state, len(net))
     I.native['scipy.optimize.Bounds'] = bounds_object
+    nruns = [0]
 
-    def ask(obj, k):
-        T, P = D.sym('T%s' % k), D.sym('P%s' % k)
-        cap.clear()
+    def ask(obj, k, kp=None):
+        T, P = D.sym('T%s' % k), D.sym('P%s' % (k if kp is None else kp))
+        begin(cap)
         nw = len(I.warnings)
         res = I.call_method(obj, 'get_net_comp', [], {'T': T, 'P': P})
+        nruns[0] = max(nruns[0], len(cap.get('recs', ())))
         return T, P, res, isinstance(res, Raised) or len(I.warnings) > nw
     T, P, res, sig = ask(eq, '')
     k1 = verify(run, I, eq, cap, res, ctx, 'feed_', T, P, label, '')
@@ -374,13 +457,23 @@ def success_instance(run, repo, net, form, label, owner, fn, mode, full, extras)
                   'asked again at (T2, P2) the pressure in the objective is another multiple of P than in the first '
                   'call', owner.module, fn)
     if isinstance(res, Raised) or isinstance(res2, Raised) or not extras:
-        return
+        return nruns[0]
+    # a pressure scan at the first temperature and a temperature scan at the first pressure: one of the two
+    # conditions is an old one, the other is new - the problem is that of the pair
+    for kt, kp_, how in (('', 'b', ', call at the first temperature and another pressure'),
+                         ('b', '', ', call at the first pressure and another temperature')):
+        Tb, Pb, resb, _ = ask(eq, kt, kp_)
+        if not isinstance(resb, Raised):
+            verify(run, I, eq, cap, resb, ctx, 'feed_', Tb, Pb, label, how, False)
+        else:
+            run.fail('REF.result', 'Equilibrium.get_net_comp', 'result' + how, '[%s] unexpected result %s'
+                     % (label + how, show(resb)), owner.module, fn)
     # ... then the solver fails once: signalled although earlier calls succeeded; and the next success is silent
     st, nit = mode
     state['outcome'] = (False, st, nit)
     T3, P3, res3, sig3 = ask(eq, '3')
     run.check(sig3, 'PATH.solver-status', 'Equilibrium.get_net_comp', 'success=False after successful calls',
-              'the solver reports failure (status %d, %s) on the third call of an object whose earlier calls '
+              'the solver reports failure (status %d, %s) on a later call of an object whose earlier calls '
               'succeeded, and the composition is returned without a warning or an exception'
               % (st, SLSQP_MESSAGES[st]), owner.module, fn)
     state['outcome'] = OK_
@@ -390,41 +483,204 @@ def success_instance(run, repo, net, form, label, owner, fn, mode, full, extras)
               owner.module, fn)
     if not sig4:
         verify(run, I, eq, cap, res4, ctx, 'feed_', T4, P4, label, ', call after a failed call', full)
-    # a second object over the same species, another feed, the conditions of the first call of the first object
-    eq2, r2, _, _, _, _ = build(I, repo, net, form, feed='feed2_', sp=sp, model=model)
+    # a second object for the same species names: species objects of its own (another thermdat, another level of
+    # theory), another feed, the conditions of the first call of the first object
+    eq2, r2, _, sp2, _, _ = build(I, repo, net, form, feed='feed2_', tag='#2')
     if isinstance(r2, Raised):
         run.fail('REF.constructor', 'Equilibrium.__init__', label + ', second object',
-                 '[%s] building a second problem over the same species raises %s' % (label, r2.exc), owner.module, fn)
-        return
-    cap.clear()
+                 '[%s] building a second problem for the same species names raises %s' % (label, r2.exc),
+                 owner.module, fn)
+        return nruns[0]
+    ctx2 = (names, sp2, comps, owner, fn)
+    begin(cap)
     nw = len(I.warnings)
     res5 = I.call_method(eq2, 'get_net_comp', [], {'T': T, 'P': P})
-    verify(run, I, eq2, cap, res5, ctx, 'feed2_', T, P, label, ', second object at the same conditions', full)
+    verify(run, I, eq2, cap, res5, ctx2, 'feed2_', T, P, label, ', second object at the same conditions', full)
     if not isinstance(res5, Raised):
         run.check(len(I.warnings) == nw, 'PATH.solver-status', 'Equilibrium.get_net_comp',
                   'success=True, second object', 'a warning is raised although the solver succeeded (second object)',
                   owner.module, fn)
+    # ... and the first object again (its first temperature, its second pressure): still its own species and feed
+    begin(cap)
+    res6 = I.call_method(eq, 'get_net_comp', [], {'T': T, 'P': P2})
+    if not isinstance(res6, Raised):
+        verify(run, I, eq, cap, res6, ctx, 'feed_', T, P2, label, ', first object again after the second', False)
+    return nruns[0]
+
+
+def sequence_instance(run, repo, net, form, label, owner, fn, mode, nruns):
+    """a call that asks the solver more than once (restart from another guess, coarse solve + polish): the runs of
+    one call have outcomes of their own. Whatever the code does with them, a failure is to be signalled iff the run
+    whose amounts are handed out is one that failed. Decided on the first and on a second call of one object."""
+    st, nit = mode
+    bad = (False, st, nit)
+    patterns = [('only the last of %d runs fails' % nruns, [OK_] * (nruns - 1) + [bad]),
+                ('only the first of %d runs fails' % nruns, [bad] + [OK_] * (nruns - 1))]
+    for j in range(1, nruns - 1):
+        patterns.append(('only run %d of %d fails' % (j + 1, nruns), [OK_] * j + [bad] + [OK_] * (nruns - 1 - j)))
+    for what, seq in patterns:
+        I = Interp(repo)
+        D = I.D
+        eq, r0, names, sp, comps, model = build(I, repo, net, form)
+        if isinstance(r0, Raised):
+            return
+        cap, state = {}, {'outcome': OK_, 'n': 0, 'seq': seq}
+        I.native['scipy.optimize.minimize'] = solver(cap, state, len(net))
+        I.native['scipy.optimize.Bounds'] = bounds_object
+        for k, nth in (('', 'first'), ('2', 'second')):
+            begin(cap)
+            nw = len(I.warnings)
+            res = I.call_method(eq, 'get_net_comp', [], {'T': D.sym('T' + k), 'P': D.sym('P' + k)})
+            if isinstance(res, Raised):
+                continue                    # an exception is a signal
+            j = returned_run(cap, res)
+            if j is None:
+                continue                    # amounts of no run: reported by the other instance (REF.result)
+            failed = not cap['recs'][j]['outcome'][0]
+            sample = '[%s] %s, %s call: run %d of %d is handed out (%s)%s' % (
+                label, what, nth, j + 1, len(cap['recs']), 'failed' if failed else 'succeeded',
+                ' -> warning' if failed else '')
+            if not failed:
+                run.ok('PATH.solver-status', 'Equilibrium.get_net_comp', sample)
+                continue
+            run.check(len(I.warnings) > nw, 'PATH.solver-status', 'Equilibrium.get_net_comp',
+                      'success=False in the run that is handed out, ' + what,
+                      'get_net_comp asks the solver %d times; when %s (status %d, %s) the amounts handed out are those '
+                      'of run %d, which failed, and the composition is returned without a warning or an exception: '
+                      'the outcome of that run is not consulted (%s call of the object)'
+                      % (len(cap['recs']), what, st, SLSQP_MESSAGES[st], j + 1, nth), owner.module, fn, sample=sample)
+
+
+def thermdat_instance(run, repo, nlabel, net, mode, full):
+    """the documented second constructor, Equilibrium.from_thermdat(thermdat, network), with the thermdat reader as an
+    uninterpreted function that returns a fresh model (species objects named by the read) every time it is asked:
+    the file of that name is whatever it is at the time of the call (another working directory, an edited file).
+    Three objects - the same file name twice, then another name - each must hold the model of its own read: the
+    objective handed to the solver has the Gibbs energies of that read's species; a failing run is signalled."""
+    I = Interp(repo)
+    D = I.D
+    ci = repo.cls(EQ)
+    owner, fn = repo.find_method(ci, 'from_thermdat')
+    gowner, gfn = repo.find_method(ci, 'get_net_comp')
+    got = repo.lookup(repo.module('pmutt.io.thermdat'), 'read_thermdat')
+    if not (isinstance(got, tuple) and got[0] == 'function'):
+        raise AnchorError('pmutt.io.thermdat.read_thermdat not found')
+    names = [nm for nm, _ in net]
+    comps = dict(net)
+    reads = []
+
+    def reader(I_, fr, args, kwargs, nd):
+        ps = ('filename', 'format', 'key')
+        if len(args) > len(ps) or any(k not in ps for k in kwargs) or any(p_ in kwargs for p_ in ps[:len(args)]):
+            raise Unsupported('read_thermdat called with these arguments')
+        vals = dict(zip(ps, args))
+        vals.update(kwargs)
+        fmt, key_ = vals.get('format', 'list'), vals.get('key', 'name')
+        if 'filename' not in vals or fmt not in ('list', 'tuple', 'dict') or key_ != 'name':
+            raise Unsupported('read_thermdat(format=%r, key=%r)' % (fmt, key_))
+        sp = {}
+        # a thermdat holds more species than the network names, in an order of its own; a species read from a file has
+        # an entry for each of the four element fields of its record, explicit zeros included (C 0 O 1 H 2 N 0)
+        fields = []
+        for _, comp in net:
+            fields.extend(e for e in comp if e not in fields)
+        fields = (fields + ['Ar'])[:4] if len(fields) < 4 else fields
+        for nm, comp in [(names[-1], comps[names[-1]]), ('Xe2', {'Xe': 2})] + list(net)[:-1]:
+            o = opaque_obj(I_, '%s@read%d' % (nm, len(reads) + 1), {'get_GoRT': ('T',)})
+            if nm != 'Xe2':
+                comp = {e: comp.get(e, 0) for e in fields}
+            o.attrs['elements'] = DictV({e: C(k) for e, k in comp.items()})
+            o.attrs['name'] = nm
+            sp[nm] = o
+        reads.append((vals['filename'], sp))
+        if fmt == 'dict':
+            return DictV(dict(sp))
+        out = ListV(list(sp.values()))
+        if fmt == 'tuple':
+            out.is_tuple = True
+        return out
+    I.opaque_funcs['%s.%s' % (got[1].name, got[2].name)] = reader
+    cap, state = {}, {'outcome': OK_, 'n': 0}
+    I.native['scipy.optimize.minimize'] = solver(cap, state, len(net))
+    I.native['scipy.optimize.Bounds'] = bounds_object
+    con = 'Equilibrium.from_thermdat'
+    objs = []
+    for k, (fname, positional) in enumerate((('thermdat', False), ('thermdat', True), ('thermdat_b', False))):
+        feed = 'feed_' if k == 0 else 'feed%d_' % (k + 1)
+        nth = ('first', 'second', 'third')[k]
+        label = '%s, %s object built from %r' % (nlabel, nth, fname)
+        network = DictV()
+        for nm in names:
+            network.d[nm] = D.sym(feed + nm)
+        n0 = len(reads)
+        a, kw = ([fname, network], {}) if positional else ([], {'thermdat': fname, 'network': network})
+        eq = I.call_function(owner.module, fn, a, kw, self_obj=ci, owner=owner, name=owner.qual + '.from_thermdat')
+        if isinstance(eq, Raised) or not isinstance(eq, Obj):
+            run.fail('REF.constructor', con, label, '[%s] from_thermdat does not build the problem: %s'
+                     % (label, show(eq, 120)), owner.module, fn)
+            return
+        if len(reads) != n0 + 1:
+            run.fail('EFFECT.shared-state', con, '%s object, same file name' % nth if k == 1 else '%s object' % nth,
+                     '[%s] the thermdat reader is asked %d times for this object: the model is not the content of '
+                     'the file %r at the time of this call%s' % (
+                         label, len(reads) - n0, fname, ' - it was remembered from an earlier call under the name '
+                         'as given (another working directory, an edited file)' if len(reads) == n0 else ''),
+                     owner.module, fn)
+            continue
+        run.check(reads[-1][0] == fname, 'DATAFLOW.call-args', con, '%s object file name' % nth,
+                  '[%s] the reader is asked for %s' % (label, show(reads[-1][0], 80)), owner.module, fn,
+                  sample='[%s] read_thermdat is asked for the file name handed in' % label)
+        objs.append((eq, feed, reads[-1][1], label))
+    # asked after all of them were built, in another order than they were built
+    for k, (eq, feed, sp, label) in enumerate(reversed(objs)):
+        ctx = (names, sp, comps, gowner, gfn)
+        T, P = D.sym('T%d' % k), D.sym('P%d' % k)
+        begin(cap)
+        nw = len(I.warnings)
+        res = I.call_method(eq, 'get_net_comp', [], {'T': T, 'P': P})
+        verify(run, I, eq, cap, res, ctx, feed, T, P, label, '', full)
+        if not isinstance(res, Raised):
+            run.check(len(I.warnings) == nw, 'PATH.solver-status', 'Equilibrium.get_net_comp',
+                      'success=True, object built from a thermdat',
+                      'a warning is raised although the solver succeeded', gowner.module, gfn)
+    if objs:
+        st, nit = mode
+        state['outcome'] = (False, st, nit)
+        eq = objs[-1][0]
+        begin(cap)
+        nw = len(I.warnings)
+        res = I.call_method(eq, 'get_net_comp', [], {'T': D.sym('Tf'), 'P': D.sym('Pf')})
+        run.check(isinstance(res, Raised) or len(I.warnings) > nw, 'PATH.solver-status', 'Equilibrium.get_net_comp',
+                  'success=False, object built from a thermdat',
+                  'the solver reports failure (status %d, %s) for an object built by from_thermdat and the '
+                  'composition is returned without a warning or an exception' % (st, SLSQP_MESSAGES[st]),
+                  gowner.module, gfn, sample='[%s] failing run on an object built by from_thermdat -> warning or '
+                  'exception' % nlabel)
 
 
 def failure_instance(run, repo, net, form, label, owner, fn, mode, seen, more=True):
-    """the solver fails (one documented exit mode of SLSQP) on every call: three calls on one object at different
-    conditions and one on a second object - each must be signalled"""
+    """the solver fails (one documented exit mode of SLSQP) in every run: three calls on one object at different
+    conditions and one on a second object - each must be signalled. Returns the largest number of solver runs one
+    call asked for."""
     st, nit = mode
     I = Interp(repo)
     D = I.D
     eq, r0, names, sp, comps, model = build(I, repo, net, form)
     if isinstance(r0, Raised):
-        return                      # reported by the other instance
+        return 0                    # reported by the other instance
     cap, state = {}, {'outcome': (False, st, nit), 'n': 0}
     I.native['scipy.optimize.minimize'] = solver(cap, state, len(net))
     I.native['scipy.optimize.Bounds'] = bounds_object
     mode_key = 'success=False, status=%d (%s)' % (st, SLSQP_MESSAGES[st])
     what = '%s, %s' % (mode_key, 'few iterations' if nit is not None else 'as many iterations as the limit handed over')
 
+    nruns = [0]
+
     def ask(obj, k):
-        cap.clear()
+        begin(cap)
         nw = len(I.warnings)
         res = I.call_method(obj, 'get_net_comp', [], {'T': D.sym('T%s' % k), 'P': D.sym('P%s' % k)})
+        nruns[0] = max(nruns[0], len(cap.get('recs', ())))
         return isinstance(res, Raised) or len(I.warnings) > nw
     first = ask(eq, '')
     if not first:
@@ -435,11 +691,11 @@ def failure_instance(run, repo, net, form, label, owner, fn, mode, seen, more=Tr
                  'the solver reports failure (%s) but the composition is returned without a warning or an exception: '
                  'the outcome of the optimisation is not consulted%s' % (what, '' if generic else ' for this exit mode'),
                  owner.module, fn)
-        return
+        return nruns[0]
     run.ok('PATH.solver-status', 'Equilibrium.get_net_comp',
            '[%s] minimize(...) -> %s -> warning or exception' % (label, what))
     if not more:
-        return
+        return nruns[0]
     for k, nth in (('2', 'second'), ('3', 'third')):
         run.check(ask(eq, k), 'PATH.solver-status', 'Equilibrium.get_net_comp',
                   'success=False, %s call on the same object' % nth,
@@ -448,11 +704,12 @@ def failure_instance(run, repo, net, form, label, owner, fn, mode, seen, more=Tr
                   sample='[%s] %s failing call on one object -> warning or exception' % (label, nth))
     eq2, r2, _, _, _, _ = build(I, repo, net, form, feed='feed2_', sp=sp, model=model)
     if isinstance(r2, Raised):
-        return
+        return nruns[0]
     run.check(ask(eq2, ''), 'PATH.solver-status', 'Equilibrium.get_net_comp', 'success=False, second object',
               'the solver fails (%s) for a second object at conditions at which it had failed for another object, and '
               'the composition is returned without a warning or an exception' % what, owner.module, fn,
               sample='[%s] failing call on a second object -> warning or exception' % label)
+    return nruns[0]
 
 
 def check(run, repo):
@@ -463,22 +720,36 @@ def check(run, repo):
         'the solver fails a warning or an exception must be produced before the result is returned - for every exit '
         'mode SLSQP documents (status 1-9, few iterations and as many as the limit handed over, scipy\'s message), on '
         'the first, second and third failing call of one object, on a second object, and on a failing call after '
-        'successful ones; a successful call is silent, also after a failed one; (b) the objective handed over is '
+        'successful ones; a successful call is silent, also after a failed one; when one call asks the solver several '
+        'times (restart, polish) the runs get outcomes of their own (only the last fails, only the first fails, only '
+        'one in between) and a signal is due whenever the run whose amounts are handed out is one that failed; (b) the '
+        'objective handed over is '
         'sum x_i (g_i + ln(x_i p/n)) with g_i the species\' own G/RT at T in the order of the amounts and p a constant '
-        'multiple of P (the same in every call), and the Jacobian handed over (a callable, or the second member of the '
+        'multiple of P (the same in every call), and the Jacobian handed over (a callable - function, method, lambda, '
+        'instance with __call__ - or the second member of the '
         'pair the objective returns with jac=True) is its exact gradient (symbolic differentiation, 2-5 species); (c) '
-        'the equality constraint is x.M - feed.M-totals over the element matrix, its Jacobian is M transposed (the '
+        'the equality constraint (called with the args entry of its dictionary, like scipy does) is x.M - feed.M-totals '
+        'over the element matrix, its Jacobian is M transposed (the '
         'derivative of the constraint); (d) the lower bound of every amount is a positive constant; (e) the returned '
-        'amounts are the solver\'s amounts of this call (by value) and the mole fractions are x / sum(x) of them. (b)-(e) '
-        'are decided for the first call, for a second call of the same object at other conditions, for a call after a '
-        'failed call, and for a second object over the same species with a feed of its own at the conditions of the '
-        'first (state shared between calls or objects: caches, flags, class attributes). The problems are built '
+        'amounts are the amounts of a run of this call as the solver handed them out (by value; what the caller does to '
+        'the solver\'s array in place is not part of the reference) and the mole fractions are x / sum(x) of them. '
+        '(b)-(e) are decided for the run that is handed out: in the first call, in a second call of the same object at '
+        'other conditions, in a call at the first temperature and another pressure and one at the first pressure and '
+        'another temperature (a memo that lacks one of the two), in a call after a '
+        'failed call, for a second object that has species objects of its own under the same names and a feed of its '
+        'own at the conditions of the '
+        'first, and for the first object again after that (state shared between calls or objects: caches, flags, class '
+        'attributes, module-level tables keyed by species name). The problems are built '
         'through the public constructor for five networks over 1-4 elements with concrete compositions and symbolic '
         'feeds, with the model in the order of the network and in another order with a species the network does not '
         'name (dict and list). (f) Equilibrium.__init__ itself: element list, element matrix (atoms of element j in '
-        'species i), feed element totals and molar masses, in both species orders and with the permuted models. A '
-        'warning counts as a signal only if no filter installed by the package (module level, or an enclosing '
-        'catch_warnings block) discards it.')
+        'species i), feed element totals and molar masses (read through their public names), in both species orders '
+        'and with the permuted models. (g) Equilibrium.from_thermdat with the thermdat reader as an uninterpreted '
+        'function that returns a fresh model per call: three objects (one file name twice, then another) each hold the '
+        'model of their own read - the reader is asked once per object for the name handed in, the objective has the '
+        'Gibbs energies of that read - and a failing run on such an object is signalled. A '
+        'warning counts as a signal only if no filter installed by the package (module level, an enclosing '
+        'catch_warnings block, or a call made on the way) discards it.')
     run.assumptions = ['scipy.optimize.minimize is an uninterpreted solver; SLSQP behaviour is not modelled',
                        'method, tolerance (ftol) and iteration limit asked of the solver are recorded, not judged']
     run.undecided = ['atom conservation, optimality and order independence of the returned composition as numeric '
@@ -488,27 +759,40 @@ def check(run, repo):
                      'request from a loose one without running the solver',
                      'SLSQP reporting success away from the optimum (linearly dependent element columns)']
     ci = repo.cls(EQ)
-    for m_ in ('get_net_comp', '__init__'):
+    for m_ in ('get_net_comp', '__init__', 'from_thermdat'):
         run.fn(EQ + '.' + m_)
     owner, fn = repo.find_method(ci, 'get_net_comp')
     thorough = run.tier == 'thorough'
     combos = list(itertools.product(NETWORKS, MODEL_FORMS))
     seen = {}
     nfail = 0
+    nruns = 0
     for ic, ((nlabel, net), form) in enumerate(combos):
         label = '%s, %s' % (nlabel, form)
         # quick: every exit mode on one of the problems (each problem has at least one); thorough: all on all
         # (the later calls and the second object: with every third mode)
         mine = [(k, m) for k, m in enumerate(FAILURE_MODES) if thorough or k % len(combos) == ic]
         for k, mode in mine:
-            failure_instance(run, repo, net, form, label, owner, fn, mode, seen, more=thorough or k % 3 == 0)
+            nruns = max(nruns, failure_instance(run, repo, net, form, label, owner, fn, mode, seen,
+                                                more=thorough or k % 3 == 0))
             nfail += 1
         # quick: the calls after the second and the second object for one form of the model per network (every form
         # on some network), callbacks applied in full on the first call only
         extras = thorough or (ic // len(MODEL_FORMS)) % len(MODEL_FORMS) == ic % len(MODEL_FORMS)
-        success_instance(run, repo, net, form, label, owner, fn, FAILURE_MODES[(ic + 5) % len(FAILURE_MODES)],
-                         thorough, extras)
+        nruns = max(nruns, success_instance(run, repo, net, form, label, owner, fn,
+                                            FAILURE_MODES[(ic + 5) % len(FAILURE_MODES)], thorough, extras))
     run.floor('solver failure instances', nfail, len(FAILURE_MODES))
+    if nruns > 1:
+        # a call asks the solver more than once: the runs of one call get outcomes of their own
+        if nruns > 6:
+            raise Unsupported('get_net_comp asks the solver %d times in one call' % nruns)
+        for ic, ((nlabel, net), form) in enumerate(combos):
+            if thorough or (ic // len(MODEL_FORMS)) % len(MODEL_FORMS) == ic % len(MODEL_FORMS):
+                sequence_instance(run, repo, net, form, '%s, %s' % (nlabel, form), owner, fn,
+                                  FAILURE_MODES[(ic + 2) % len(FAILURE_MODES)], nruns)
+    for k, (nlabel, net) in enumerate(NETWORKS):
+        if thorough or k == 2:
+            thermdat_instance(run, repo, nlabel, net, FAILURE_MODES[(k + 7) % len(FAILURE_MODES)], thorough)
     constructor(run, repo)
 
 
@@ -526,14 +810,20 @@ NETWORKS = [
 def constructor(run, repo):
     """Equilibrium.__init__ interpreted for concrete compositions and symbolic feeds: element list, element matrix,
     feed totals and molar masses for networks over 1-4 elements, in both species orders"""
-    from ..fold import fold_value, fold_num
+    from .c12 import module_tables
     ci = repo.cls(EQ)
     owner, fn = repo.find_method(ci, '__init__')
     cm = repo.module('pmutt.constants')
-    node = cm.assigns.get('atomic_weight', [None])[-1]
-    if not isinstance(node, ast.Dict):
+    if 'atomic_weight' not in cm.assigns:
         raise AnchorError('pmutt.constants.atomic_weight not found')
-    aw = {fold_value(cm, k): fold_num(cm, v).v for k, v in zip(node.keys, node.values)}
+    # the table as it stands once pmutt.constants has been imported (a literal, entries added afterwards, rows derived
+    # from other rows - however the module spells it); its numbers are C12's business
+    aw = module_tables(repo, cm, ['atomic_weight'])['atomic_weight']
+    for _, net in NETWORKS:
+        for _, comp in net:
+            for e in comp:
+                if e not in aw:
+                    raise AnchorError('pmutt.constants.atomic_weight has no entry for %r' % (e,))
     n = 0
     for label0, net in NETWORKS:
         for rev, as_list, perm in ((False, False, False), (True, False, False), (False, True, False),
@@ -553,15 +843,14 @@ def constructor(run, repo):
                 model.d[nm] = sp
             for nm, comp in order:
                 network.d[nm] = D.sym('feed_' + nm)
-            eq = Obj('eq', ci, closed=True)
             key = '%s%s%s%s' % (label, ', reversed' if rev else '', ', species given as a list' if as_list else '',
                                 ', model in another order with a species more' if perm else '')
             if as_list:
                 label = label + ' [species list]'
             if perm:
                 label = label + ' [model permuted]'
-            r = I.call_method(eq, '__init__', [], {'model': ListV(list(model.d.values())) if as_list else model,
-                                                   'network': network})
+            eq = r = I.construct(ci, [], {'model': ListV(list(model.d.values())) if as_list else model,
+                                          'network': network}, name='eq')
             n += 1
             if isinstance(r, Raised):
                 run.fail('REF.constructor', 'Equilibrium.__init__', label,
@@ -573,10 +862,11 @@ def constructor(run, repo):
                 for e in comp:
                     if e not in els:
                         els.append(e)
-            got_el = eq.attrs.get('elements')
-            got_M = eq.attrs.get('mol_elem')
-            got_F = eq.attrs.get('ele_feed')
-            got_W = eq.attrs.get('species_mw')
+            # the documented attributes as a user reads them (a property backed by a private field is the same attribute)
+            got_el = pub(eq, 'elements')
+            got_M = pub(eq, 'mol_elem')
+            got_F = pub(eq, 'ele_feed')
+            got_W = pub(eq, 'species_mw')
             ok = isinstance(got_el, ListV) and [I.plain(x) for x in got_el.items] == els
             run.check(ok, 'REF.constructor', 'Equilibrium.__init__', label + ' elements',
                       '[%s] element list is %s, expected %s' % (key, show(got_el, 80), els), owner.module, fn)
@@ -603,6 +893,29 @@ def constructor(run, repo):
 
 
 E_ = 'pmutt/equilibrium/_equilibrium.py'
+_POLISH = (
+    "        sol = minimize(self._objective, sol.x,\n                       args=(self.gibbs, self.P*1.01325),\n"
+    "                       jac=self._objective_jac,\n                       method='SLSQP',\n"
+    "                       options={'ftol': 1e-14, 'maxiter': self.maxiter},\n"
+    "                       bounds=self.bounds,\n                       constraints=self.con)\n")
+_CON_ARGS = [
+    (E_, "    def _constraints1_eq(self, x):\n        s = x.dot(self.mol_elem) - self.ele_feed",
+     "    def _constraints1_eq(self, x, ele_feed):\n        s = x.dot(self.mol_elem) - ele_feed"),
+    (E_, "    def _constraints1_eq_jac(self, x):\n", "    def _constraints1_eq_jac(self, x, *args):\n"),
+    (E_, "                    'jac': self._constraints1_eq_jac}",
+     "                    'jac': self._constraints1_eq_jac,\n                    'args': (self.ele_feed,)}")]
+_CON_OLD = ("        self.con = {'type': 'eq', 'fun': self._constraints1_eq,\n"
+            "                    'jac': self._constraints1_eq_jac}\n")
+_CON_PER = ("        self.con = [{'type': 'eq',\n"
+            "                     'fun': lambda x, j=j: x.dot(self.mol_elem[:, j]) - self.ele_feed[j],\n"
+            "                     'jac': lambda x, j=j: self.mol_elem[:, j]}\n"
+            "                    for j in range(len(self.elements))]\n")
+_CALLABLE = (
+    "class _GibbsEnergy():\n\n    def __init__(self, gibbs, p):\n        self.g = np.array(gibbs)\n        self.p = p\n\n"
+    "    def __call__(self, x):\n        s = 0.0\n        nT = sum(x)\n        for i in range(len(x)):\n"
+    "            s += x[i]*(self.g[i] + np.log(x[i]*self.p/nT))\n        return s\n\n"
+    "    def jac(self, x):\n        s = np.zeros_like(x)\n        nT = sum(x)\n        for i in range(len(x)):\n"
+    "            s[i] = self.g[i] + np.log(x[i]*self.p/nT)\n        return s\n\n\n")
 MUTANTS = [
     {'name': 'jacobian misses the log term pressure', 'expect': ('DERIV.objective-jac', '_objective_jac'),
      'edits': [(E_, '            s[i] = g[i] + np.log(x[i] * p / nT)', '            s[i] = g[i] + np.log(x[i] / nT)')]},
@@ -665,6 +978,76 @@ MUTANTS = [
      'edits': [(E_, "        return res(self.species, sol.x, sol.x/np.sum(sol.x), self.P, self.T)",
                 "        self._x = getattr(self, '_x', sol.x)\n"
                 "        return res(self.species, self._x, sol.x/np.sum(sol.x), self.P, self.T)")]},
+    # ---- white-box round 3: several runs in one call, memos that lack a key, the second constructor
+    {'name': 'polishing run below the status test, its outcome never consulted', 'expect': ('PATH.solver-status', 'get_net_comp'),
+     'edits': [(E_, '        res = namedtuple("res"', _POLISH + '        res = namedtuple("res"')]},
+    {'name': 'result memo of the object keyed by the temperature alone', 'expect': ('EFFECT.shared-state', 'get_net_comp'),
+     'edits': [(E_, "        self.network = network\n", "        self.network = network\n        self._solved = {}\n"),
+               (E_, "        self.T = T\n        # Model initialization parameters\n",
+                "        self.T = T\n        try:\n            return self._solved[T]\n        except KeyError:\n            pass\n"),
+               (E_, "        return res(self.species, sol.x, sol.x/np.sum(sol.x), self.P, self.T)",
+                "        self._solved[T] = res(self.species, sol.x, sol.x/np.sum(sol.x), self.P, self.T)\n"
+                "        return self._solved[T]")]},
+    {'name': 'result memo of the object keyed by the pressure alone', 'expect': ('EFFECT.shared-state', 'get_net_comp'),
+     'edits': [(E_, "        self.network = network\n", "        self.network = network\n        self._solved = {}\n"),
+               (E_, "        self.T = T\n        # Model initialization parameters\n",
+                "        self.T = T\n        try:\n            return self._solved[P]\n        except KeyError:\n            pass\n"),
+               (E_, "        return res(self.species, sol.x, sol.x/np.sum(sol.x), self.P, self.T)",
+                "        self._solved[P] = res(self.species, sol.x, sol.x/np.sum(sol.x), self.P, self.T)\n"
+                "        return self._solved[P]")]},
+    {'name': 'G/RT memo of the module keyed by species name and temperature', 'expect': ('REF.objective', ''),
+     'edits': [(E_, "class Equilibrium():\n", "_GORT = {}\n\n\nclass Equilibrium():\n"),
+               (E_, "            self.gibbs.append(self.model[x].get_GoRT(T=T))",
+                "            try:\n                g = _GORT[(x, T)]\n            except KeyError:\n"
+                "                g = _GORT[(x, T)] = self.model[x].get_GoRT(T=T)\n            self.gibbs.append(g)")]},
+    {'name': 'from_thermdat remembers parsed files by the name as given', 'expect': ('EFFECT.shared-state', 'from_thermdat'),
+     'edits': [(E_, "class Equilibrium():\n", "_THERMDATS = {}\n\n\nclass Equilibrium():\n"),
+               (E_, '        model = read_thermdat(thermdat, "dict")\n',
+                '        try:\n            model = _THERMDATS[thermdat]\n        except KeyError:\n'
+                '            model = _THERMDATS[thermdat] = read_thermdat(thermdat, "dict")\n')]},
+    {'name': 'from_thermdat remembers parsed files in a table of the class', 'expect': ('EFFECT.shared-state', 'from_thermdat'),
+     'edits': [(E_, "    def __init__(self,\n                 model,", "    _thermdats = {}\n\n    def __init__(self,\n                 model,"),
+               (E_, '        model = read_thermdat(thermdat, "dict")\n',
+                '        try:\n            model = cls._thermdats[thermdat]\n        except KeyError:\n'
+                '            model = cls._thermdats[thermdat] = read_thermdat(thermdat, "dict")\n')]},
+    {'name': 'ignore-filter installed in a module-level for loop', 'expect': ('PATH.solver-status', 'get_net_comp'),
+     'edits': [(E_, 'warnings.filterwarnings("ignore", "Values in x were outside bounds during a ")\n',
+                'warnings.filterwarnings("ignore", "Values in x were outside bounds during a ")\n'
+                'for _category in (RuntimeWarning, FutureWarning):\n'
+                '    warnings.filterwarnings("ignore", category=_category, module=r"pmutt\\.equilibrium")\n')]},
+    {'name': 'ignore-filter installed by a helper that is run at import', 'expect': ('PATH.solver-status', 'get_net_comp'),
+     'edits': [(E_, 'warnings.filterwarnings("ignore", "Values in x were outside bounds during a ")\n',
+                'warnings.filterwarnings("ignore", "Values in x were outside bounds during a ")\n\n\n'
+                'def _quiet():\n    warnings.filterwarnings("ignore", category=RuntimeWarning, module=r"pmutt\\.equilibrium")\n'
+                '\n\n_quiet()\n')]},
+    {'name': 'ignore-filter installed in the class body', 'expect': ('PATH.solver-status', 'get_net_comp'),
+     'edits': [(E_, "    def __init__(self,\n                 model,",
+                '    warnings.filterwarnings("ignore", category=RuntimeWarning, module=r"pmutt\\.equilibrium")\n\n'
+                "    def __init__(self,\n                 model,")]},
+    {'name': 'from_thermdat switches the runtime warnings off', 'expect': ('PATH.solver-status', 'get_net_comp'),
+     'edits': [(E_, '        model = read_thermdat(thermdat, "dict")\n',
+                '        warnings.filterwarnings("ignore", category=RuntimeWarning)\n'
+                '        model = read_thermdat(thermdat, "dict")\n')]},
+    {'name': 'from_thermdat reads a file of another name', 'expect': ('DATAFLOW.call-args', 'from_thermdat'),
+     'edits': [(E_, '        model = read_thermdat(thermdat, "dict")\n',
+                '        model = read_thermdat(thermdat + ".txt", "dict")\n')]},
+    {'name': 'the solver\'s amounts scaled in place before they are handed out', 'expect': ('REF.result', 'get_net_comp'),
+     'edits': [(E_, '        res = namedtuple("res"', '        sol.x *= 2.0\n        res = namedtuple("res"')]},
+    {'name': 'amounts normalised in place: fractions handed out as amounts', 'expect': ('REF.result', 'get_net_comp'),
+     'edits': [(E_, "        return res(self.species, sol.x, sol.x/np.sum(sol.x), self.P, self.T)",
+                "        mole_frac = sol.x\n        mole_frac /= np.sum(mole_frac)\n"
+                "        return res(self.species, sol.x, mole_frac, self.P, self.T)")]},
+    {'name': 'feed totals of the constraint handed over through args, with the feed amounts instead of the totals',
+     'expect': ('REF.constraint', ''),
+     'edits': _CON_ARGS[:2] + [(E_, "                    'jac': self._constraints1_eq_jac}",
+                                "                    'jac': self._constraints1_eq_jac,\n"
+                                "                    'args': (self.ele_feed*2,)}")]},
+    {'name': 'columns of elements that no species of the network contains are kept (explicit zero counts of a thermdat)',
+     'expect': ('REF.constraint', ''),
+     'edits': [(E_, "        self.elements = list(np.array(self.elements)\n                             [sum(self.mol_elem, 0) > 0])\n"
+                "        self.mol_elem = self.mol_elem[:, sum(self.mol_elem, 0) > 0]\n", "")]},
+    {'name': 'one constraint dictionary per element, the last element left out', 'expect': ('DATAFLOW.solver-args', 'get_net_comp'),
+     'edits': [(E_, _CON_OLD, _CON_PER.replace("range(len(self.elements))", "range(len(self.elements) - 1)"))]},
 ]
 _PAIR = (
     "    def _objective_and_jac(self, x, *args):\n        mu = np.zeros_like(x)\n        s = 0.0\n        nT = sum(x)\n"
@@ -704,4 +1087,39 @@ EQUIV = [
                 "        self.bounds = Bounds([b[0]]*len(self.species), [b[1]]*len(self.species))")]},
     {'name': 'status test spelled sol.status != 0',
      'edits': [(E_, "        if not sol.success:\n", "        if sol.status != 0:\n")]},
+    # white-box round 3, part B, and the harmless twins of the round-3 mutants
+    {'name': 'temperature handed to get_GoRT positionally',
+     'edits': [(E_, "self.model[x].get_GoRT(T=T)", "self.model[x].get_GoRT(T)")]},
+    {'name': 'ele_feed a property backed by a private field',
+     'edits': [(E_, "    # Objective (Cost) Function: Summ of Gibb's Free Energies\n",
+                "    @property\n    def ele_feed(self):\n        return self._ele_feed\n\n"
+                "    @ele_feed.setter\n    def ele_feed(self, val):\n        self._ele_feed = val\n\n"
+                "    # Objective (Cost) Function: Summ of Gibb's Free Energies\n")]},
+    {'name': 'feed totals handed to the constraint through the args entry of the constraint dictionary',
+     'edits': list(_CON_ARGS)},
+    {'name': 'objective and gradient in a callable class',
+     'edits': [(E_, "class Equilibrium():\n", _CALLABLE + "class Equilibrium():\n"),
+               (E_, "        sol = minimize(self._objective, self.guess,\n                       args=(self.gibbs, self.P*1.01325),\n"
+                "                       jac=self._objective_jac,\n",
+                "        gibbs_energy = _GibbsEnergy(self.gibbs, self.P*1.01325)\n"
+                "        sol = minimize(gibbs_energy, self.guess,\n                       jac=gibbs_energy.jac,\n")]},
+    {'name': 'polishing run after a successful run, its outcome tested as well',
+     'edits': [(E_, '        res = namedtuple("res"',
+                "        if sol.success:\n" + _POLISH.replace("\n        ", "\n            ").replace("        sol = minimize", "            sol = minimize", 1)
+                + "            if not sol.success:\n                warnings.warn('polish: {}'.format(sol.message), RuntimeWarning)\n"
+                + '        res = namedtuple("res"')]},
+    {'name': 'polishing run whose amounts are kept only if it succeeded',
+     'edits': [(E_, '        res = namedtuple("res"',
+                "        if sol.success:\n"
+                + _POLISH.replace("\n        ", "\n            ").replace("        sol = minimize", "            sol2 = minimize", 1).replace("\n                       ", "\n                        ")
+                + "            if sol2.success:\n                sol = sol2\n" + '        res = namedtuple("res"')]},
+    {'name': 'G/RT memo kept in the object, keyed by species name and temperature',
+     'edits': [(E_, "        self.network = network\n", "        self.network = network\n        self._gort = {}\n"),
+               (E_, "            self.gibbs.append(self.model[x].get_GoRT(T=T))",
+                "            try:\n                g = self._gort[(x, T)]\n            except KeyError:\n"
+                "                g = self._gort[(x, T)] = self.model[x].get_GoRT(T=T)\n            self.gibbs.append(g)")]},
+    {'name': 'one equality constraint dictionary per element', 'edits': [(E_, _CON_OLD, _CON_PER)]},
+    {'name': 'from_thermdat reads the species as a list and hands them over positionally',
+     'edits': [(E_, '        model = read_thermdat(thermdat, "dict")\n        return cls(model=model, network=network)',
+                '        species = read_thermdat(filename=thermdat)\n        return cls(species, network)')]},
 ]
